@@ -134,6 +134,9 @@ func runAPCase(t *testing.T, m *Model, rng *RNG, c apCase, replay bool) (goRes s
 					b = b2
 				}
 			}
+			// (a clean-up of the replay cache may run at any moment between two presentations: it changes nothing for an
+			// authenticator that is still acceptable)
+			service.GetReplayCache(c.skew).ClearOldEntries(c.skew)
 			goRes = verify() // the same request presented again
 		}
 		ob := b
@@ -227,6 +230,7 @@ func c01Defects() []defect {
 		{"sname-host", func(c *apCase, r *RNG) { c.sname = []string{"host", "host.test.gokrb5"} }},
 		{"sname-krbtgt", func(c *apCase, r *RNG) { c.sname = []string{"krbtgt", "TEST.GOKRB5"} }},
 		{"invalid", func(c *apCase, r *RNG) { c.invalid = true }},
+		{"invalid+nostart", func(c *apCase, r *RNG) { c.invalid = true; c.noStart = true }},
 		{"nostart", func(c *apCase, r *RNG) { c.noStart = true }},
 		// the ticket's encrypted part under a key the service does not have, and the same EncTicketPart (session
 		// key included) appended in the clear: nothing in the clear may stand in for what the key must open
@@ -353,6 +357,13 @@ func TestC01(t *testing.T) {
 			c := baseCase(et)
 			apply(&c, d)
 			c01Compare(t, m, v, rng, c, false)
+			// requests on the edge of what is acceptable, presented twice
+			switch d.name {
+			case "end=now-d", "ctime=now-d", "ctime=now+d", "start=now+d", "renewable", "nostart", "clock+.5s", "clock+.3s,end=now-d+1s":
+				c2 := baseCase(et)
+				apply(&c2, d)
+				c01Compare(t, m, v, rng, c2, true)
+			}
 		}
 		pairs := 90
 		if Thorough() {
@@ -403,6 +414,12 @@ func adCredentialsDiffer(got credentials.ADCredentials, pacBytes []byte) string 
 	chk("FullName", got.FullName, k.FullName.Value)
 	chk("UserID", fmt.Sprint(got.UserID), fmt.Sprint(k.UserID))
 	chk("PrimaryGroupID", fmt.Sprint(got.PrimaryGroupID), fmt.Sprint(k.PrimaryGroupID))
+	chk("LogOnTime", fmt.Sprint(got.LogOnTime.UTC()), fmt.Sprint(k.LogOnTime.Time().UTC()))
+	chk("LogOffTime", fmt.Sprint(got.LogOffTime.UTC()), fmt.Sprint(k.LogOffTime.Time().UTC()))
+	chk("PasswordLastSet", fmt.Sprint(got.PasswordLastSet.UTC()), fmt.Sprint(k.PasswordLastSet.Time().UTC()))
+	if k.LogOffTime == k.KickOffTime || k.LogOffTime == k.LogOnTime || k.PasswordLastSet == k.PasswordCanChange {
+		d = append(d, "(harness) the times of the minted logon information are not pairwise different")
+	}
 	chk("LogonServer", got.LogonServer, k.LogonServer.Value)
 	chk("LogonDomainName", got.LogonDomainName, k.LogonDomainName.Value)
 	chk("LogonDomainID", got.LogonDomainID, k.LogonDomainID.String())
